@@ -202,7 +202,7 @@ fn gen_seed_for(rng: &mut Rng, w: &World, naccts: usize, datalens: &[usize]) -> 
     match rng.below(10) {
         0..=2 => {
             let l = match rng.below(8) { 0 => rng.range(9, 30) as usize, 1 => *rng.pick(&[16usize, 29, 30]), _ => rng.below(9) as usize };
-            Seed::Literal { bytes: rng.bytes(l) }
+            Seed::Literal { bytes: if rng.chance(1, 4) { (0..l).map(|_| rng.below(5) as u8).collect() } else { rng.bytes(l) } }
         }
         3..=5 => {
             let l = match rng.below(8) {
@@ -767,6 +767,15 @@ pub fn run_c06_c08(ctx: &Ctx, prop: &str) -> Report {
         if prop == "C08" {
             // pool order must not matter
             let mut p2 = sc.pool.clone();
+            // the same account passed more than once (identical copies) is still the same pool
+            if rng.chance(1, 3) && !p2.is_empty() {
+                for _ in 0..rng.range(1, 3) {
+                    let j = rng.below(p2.len() as u64) as usize;
+                    let dup = p2[j].clone();
+                    p2.push(dup);
+                }
+                rep.count("pool:duplicate-infos");
+            }
             p2.reverse();
             let i = rng.below(p2.len().max(1) as u64) as usize;
             let rot = i.min(p2.len().saturating_sub(1));
